@@ -376,33 +376,42 @@ func c12R4(w *World, r *Report, rule string) {
 				keyOK = strings.Contains(w.accessPath(mu.Key), ".DataPair.Key") && strings.HasPrefix(w.accessPath(mu.Key), "param:"+up.Params[7].Name())
 			}
 			r.Check(keyOK, rule, cons+" | key", mu.Pos(), "keyed by the given channel / the target position's own key", "the update writes an entry other than the given channel's: another channel's checkpoint is overwritten")
-			// control-dependent on origin == nil || !origin.Dropped, origin = same map[same key]
+			// the update is not reachable once the stored entry of the same key was found marked Dropped: find the
+			// lookup of the same table and key, the branch on its .Dropped flag (in either polarity), and require that
+			// the side on which Dropped is true cannot reach the update
 			frozen := false
 			for _, b := range up.Blocks {
 				cond, t, f, isIf := ifSuccs(b)
 				if !isIf {
 					continue
 				}
-				// pattern: if origin == nil goto upd else check; check: if origin.Dropped goto skip else upd
-				var origin ssa.Value
-				if bo, isB := cond.(*ssa.BinOp); isB && bo.Op == token.EQL && isNilConst(bo.Y) {
-					origin = bo.X
-					_ = t
-				}
-				if origin == nil {
-					continue
-				}
-				lk, isL := origin.(*ssa.Lookup)
-				if !isL || w.accessPath(lk.X) != ap || w.accessPath(lk.Index) != w.accessPath(mu.Key) {
-					continue
-				}
-				// the not-nil branch must test .Dropped before reaching the update
-				for _, in2 := range f.Instrs {
-					if i2, isIf2 := in2.(*ssa.If); isIf2 {
-						if strings.HasSuffix(w.accessPath(i2.Cond), ".Dropped") && f.Succs[0] != mu.Block() && !blockReach(f.Succs[0], map[*ssa.BasicBlock]bool{b: true})[mu.Block()] {
-							frozen = true
-						}
+				for {
+					u, isU := cond.(*ssa.UnOp)
+					if !isU || u.Op != token.NOT {
+						break
 					}
+					cond, t, f = u.X, f, t
+				}
+				ld, isLd := cond.(*ssa.UnOp)
+				if !isLd || ld.Op != token.MUL {
+					continue
+				}
+				fa, isFA := ld.X.(*ssa.FieldAddr)
+				if !isFA || fieldName(fa.X.Type(), fa.Field) != "Dropped" {
+					continue
+				}
+				same := false
+				for _, x := range backSlice(fa.X, SliceOpts{MaxDepth: 4, NoAggregates: true}) {
+					if lk, isL := x.(*ssa.Lookup); isL && w.accessPath(lk.X) == ap && w.accessPath(lk.Index) == w.accessPath(mu.Key) {
+						same = true
+					}
+				}
+				if !same {
+					continue
+				}
+				_ = f
+				if t != mu.Block() && !blockReach(t, nil)[mu.Block()] {
+					frozen = true
 				}
 			}
 			r.Check(frozen, rule, cons+" | dropped entries frozen", mu.Pos(), "skipped when the stored entry is marked Dropped", "an entry marked dropped can be overwritten: the checkpoint of a collection whose drop was replayed moves again")
